@@ -381,10 +381,6 @@ def getslice(I, ctx, obj, lo, hi, node):
         return I.split(ctx, lo, lambda sub, a: getslice(I, sub, obj, a, hi, node))
     if isinstance(hi, Choice):
         return I.split(ctx, hi, lambda sub, a: getslice(I, sub, obj, lo, a, node))
-    for bound in (lo, hi):
-        if bound is not None and concrete_int(bound) is None:
-            # a negative bound counts from the end in Python; not modelled: such a path must be shown unreachable
-            I.raise_if(ctx, simp(znum(b2i(bound)) < 0), UnwindLimit, 'negative-slice-bound@' + I.where(node))
     heap = ctx.heap
     seq = obj
     is_ref = isinstance(obj, (Ref, Snapshot))
@@ -404,25 +400,26 @@ def getslice(I, ctx, obj, lo, hi, node):
         if not isinstance(seq, (tuple, SymSeq)):
             raise PyvcUnsupported('slice')
         s_ = as_symseq(seq)
-        if (lo_c is not None and lo_c < 0) or (hi_c is not None and hi_c < 0):
-            raise PyvcUnsupported('negative slice bound on a symbolic sequence')
+        ln = znum(b2i(seq_len(s_)))
+
+        def norm(b):
+            """Python's slice bound: negative counts from the end; clamped to [0, len]"""
+            v = znum(b2i(b))
+            return simp(z3.If(v < 0, z3.If(v + ln < 0, 0, v + ln), z3.If(v < ln, v, ln)))
+        lo_n = norm(lo) if lo is not None and lo_c != 0 else None
+        hi_n = norm(hi) if hi is not None else None
         rk = list(range(s_.cap)) if s_.n is not None else ranks(s_)
         flags = []
         for k in range(s_.cap):
             f = s_.flags[k]
-            if lo is not None and lo_c != 0:
-                f = And_(f, I.order(ast.GtE(), rk[k], lo, ctx, node))
-            if hi is not None:
-                f = And_(f, I.order(ast.Lt(), rk[k], hi, ctx, node))
+            if lo_n is not None:
+                f = And_(f, simp(znum(b2i(rk[k])) >= lo_n))
+            if hi_n is not None:
+                f = And_(f, simp(znum(b2i(rk[k])) < hi_n))
             flags.append(f)
-        if s_.n is not None and (lo is None or lo_c == 0):
+        if s_.n is not None and lo_n is None:
             # prefix of a prefix-form sequence stays in prefix form
-            if hi is None:
-                res0 = s_
-            else:
-                h = znum(b2i(hi))
-                newn = simp(z3.If(h < 0, 0, z3.If(h < znum(s_.n), h, znum(s_.n))))
-                res0 = SymSeq(s_.slots, newn)
+            res0 = s_ if hi_n is None else SymSeq(s_.slots, hi_n)
         else:
             res0 = SymSeq(s_.slots, flags=flags)
         res = wrap_seq(res0, heap, ctx)
